@@ -115,6 +115,15 @@ impl Prng {
         l.min(cap)
     }
 
+    /// A length at or near a systems boundary (MTUs, pages, record sizes): code that special-cases
+    /// "small packets" or stack buffers tends to go wrong within a tag length of one of these
+    pub fn sys_len(&mut self) -> usize {
+        const B: &[usize] = &[512, 576, 1024, 1200, 1280, 1400, 1460, 1472, 1500, 2048, 4096, 8192, 9000, 16384];
+        let b = *self.pick(B);
+        let d = self.below(41) as usize; // -20 ..= +20
+        (b + d).saturating_sub(20)
+    }
+
     /// Bytes with a varied byte distribution
     pub fn bytes(&mut self, len: usize) -> Vec<u8> {
         let mut v = vec![0u8; len];
